@@ -122,6 +122,7 @@ pub fn e3_test<'a>(part: &'a E3Part, edges: &'a Mutex<BTreeSet<(u8, u8, &'static
         }
         let ex = res?;
         let mut m = meta_from(case, &ex);
+        m.count("arrivals", ex.arrivals as u64);
         if part.lenses.deadlock {
             let mut g = edges.lock().unwrap();
             g.extend(ex.edges.iter().cloned());
@@ -137,12 +138,107 @@ pub fn e3_test<'a>(part: &'a E3Part, edges: &'a Mutex<BTreeSet<(u8, u8, &'static
     }
 }
 
+/// A program together with the bound of the systematic schedule enumeration.
+#[derive(Clone, Debug, serde::Serialize, serde::Deserialize)]
+pub struct EnumCase {
+    pub prog: sched::Prog,
+    pub max_schedules: u32,
+    /// restrict to one schedule (set in shrunk replays)
+    pub only: Option<(Vec<u8>, Vec<u16>)>,
+}
+
+fn perms(n: usize) -> Vec<Vec<u8>> {
+    // priority vectors = permutations of 0..n (as priorities)
+    let mut out = Vec::new();
+    let mut a: Vec<u8> = (0..n as u8).collect();
+    fn rec(k: usize, a: &mut Vec<u8>, out: &mut Vec<Vec<u8>>) {
+        if k == a.len() {
+            out.push(a.clone());
+            return;
+        }
+        for i in k..a.len() {
+            a.swap(k, i);
+            rec(k + 1, a, out);
+            a.swap(k, i);
+        }
+    }
+    rec(0, &mut a, &mut out);
+    out
+}
+
+/// Preemption-bounded systematic exploration of one program: every priority order x every set of
+/// at most 2 preemptions at interesting yield points (bounded by `max_schedules`, evenly sampled).
+pub fn enum_test<'a>(part: &'a E3Part, edges: &'a Mutex<BTreeSet<(u8, u8, &'static str)>>) -> impl Fn(&EnumCase) -> R<CaseMeta> + Sync + 'a {
+    move |ec: &EnumCase| {
+        let one = e3_test(part, edges);
+        let nt = ec.prog.threads.len();
+        let mut total = CaseMeta::default();
+        let mut run = |prio: &Vec<u8>, preempt: &Vec<u16>| -> R<u16> {
+            let case = SchedCase { prog: ec.prog.clone(), mode: sched::Mode::Points { prio: prio.clone(), preempt: preempt.clone(), all_points: part.lenses.deadlock }, choices: vec![] };
+            let m = one(&case).map_err(|f| Fail::new(f.sig, format!("schedule prio={prio:?} preempt={preempt:?}: {}", f.detail)))?;
+            total.evals += 1;
+            total.nontrivial.extend(m.nontrivial);
+            total.classes.extend(m.classes);
+            let arr = m.counters.iter().find(|(k, _)| k == "arrivals").map(|(_, v)| *v as u16).unwrap_or(0);
+            Ok(arr)
+        };
+        if let Some((prio, preempt)) = &ec.only {
+            run(prio, preempt)?;
+            return Ok(total);
+        }
+        let mut plist = perms(nt);
+        if plist.len() > 6 {
+            plist.truncate(6);
+        }
+        // schedules: for each priority order: no preemption, each single preemption, each pair
+        let mut scheds: Vec<(Vec<u8>, Vec<u16>)> = Vec::new();
+        for prio in &plist {
+            let m = run(prio, &vec![])?.min(40);
+            for i in 0..m {
+                scheds.push((prio.clone(), vec![i]));
+            }
+            for i in 0..m {
+                for j in (i + 1)..m {
+                    scheds.push((prio.clone(), vec![i, j]));
+                }
+            }
+        }
+        let max = ec.max_schedules as usize;
+        let stride = (scheds.len() + max - 1) / max.max(1);
+        for (idx, (prio, preempt)) in scheds.iter().enumerate() {
+            if stride > 1 && idx % stride != (hash_of_prog(&ec.prog) as usize) % stride {
+                continue;
+            }
+            run(prio, preempt)?;
+        }
+        total.class("enumerated_program");
+        Ok(total)
+    }
+}
+
+fn hash_of_prog(p: &sched::Prog) -> u64 {
+    crate::common::hash_json(p)
+}
+
 pub fn run_e3_part(ctx: &Ctx, acc: &Mutex<Acc>, part: &E3Part) -> Option<Violation> {
     sched::install_hook();
     let cases = ctx.tier.scale(part.quick_cases, part.thorough_factor);
     let edges = Mutex::new(BTreeSet::new());
     let test = e3_test(part, &edges);
     let v = campaign(ctx, acc, part.name, "E3", cases, 300, |_shard| gen::sched_case(&part.bias), test);
+    let v = match v {
+        Some(v) => Some(v),
+        None => {
+            // systematic part: generated programs x enumerated <=2-preemption schedules
+            let progs = ctx.tier.scale((part.quick_cases / 40).max(3), 10);
+            let max_schedules = if ctx.tier == Tier::Thorough { 2000 } else { 150 };
+            let et = enum_test(part, &edges);
+            campaign(ctx, acc, &format!("{}-enum", part.name), "E3E", progs, 40, |_shard| {
+                use proptest::strategy::Strategy;
+                gen::prog(&part.bias).prop_map(move |prog| EnumCase { prog, max_schedules, only: None })
+            }, et)
+        }
+    };
     if part.lenses.deadlock {
         let g = edges.lock().unwrap();
         let mut a = acc.lock().unwrap();
@@ -153,10 +249,71 @@ pub fn run_e3_part(ctx: &Ctx, acc: &Mutex<Acc>, part: &E3Part) -> Option<Violati
     v
 }
 
+pub fn replay_e3_enum(prop: &str, case: serde_json::Value) -> R<CaseMeta> {
+    let case: EnumCase = serde_json::from_value(case).expect("harness: bad E3E replay case");
+    let part = part_for(prop);
+    let edges = Mutex::new(BTreeSet::new());
+    let t = enum_test(&part, &edges);
+    t(&case)
+}
+
 pub fn replay_e3(prop: &str, case: serde_json::Value) -> R<CaseMeta> {
     let case: SchedCase = serde_json::from_value(case).expect("harness: bad E3 replay case");
     let part = part_for(prop);
     let edges = Mutex::new(BTreeSet::new());
     let t = e3_test(&part, &edges);
     t(&case)
+}
+
+// ---------------------------------------------------------------------------------------------
+// free-running stress parts
+
+use crate::stress::{run_register, run_shared, StressCase};
+
+pub const STRESS_REGISTER_RULE: &str = "free-running stress (no scheduler): 2-4 writer threads, each the only writer of its key, overwrite (or alternately put/remove) it with self-describing payloads of varying size while 4-8 reader threads hammer get/get_reader/get_range on those keys; oracle: no call fails, every returned byte string is one complete committed payload of that key, and every read obeys the atomic-register condition (it observes a version between the last write that returned before the read began and the last write that began before the read ended; timestamps are taken outside the calls, which only widens the intervals), final state = last write. This reaches code between the scheduler's yield points. non-trivial = run in which >=1 read overlapped a write (measured); distinct by (parameters, overlap count)";
+
+pub const STRESS_SHARED_RULE: &str = "free-running stress: 2-6 threads issue random put/remove/remove_range/checkpoint over 3 keys and 3 contents; judged at quiescence (index->blob resolution / exact listing)";
+
+fn stress_strategy(big: bool) -> proptest::strategy::BoxedStrategy<StressCase> {
+    use proptest::prelude::*;
+    let (w, r) = if big { (600u16..1500, 2000u16..6000) } else { (100u16..300, 400u16..1200) };
+    (prop_oneof![Just(1u64), Just(2u64), Just(100u64)], 2u8..5, 3u8..9, w, r, any::<bool>(), any::<u64>(), any::<bool>())
+        .prop_map(|(n, writers, readers, writes, reads, removes, seed, hot)| StressCase { n, writers, readers, writes, reads, removes, seed, hot })
+        .boxed()
+}
+
+pub fn run_stress_register(ctx: &Ctx, acc: &Mutex<Acc>) -> Option<Violation> {
+    let cases = ctx.tier.scale(1, 10);
+    let big = ctx.tier == Tier::Thorough;
+    // the cases are multi-threaded themselves: run at most two at a time so that their threads really run in parallel
+    PAR_LIMIT.store(2, std::sync::atomic::Ordering::SeqCst);
+    let v = campaign(ctx, acc, "stress-register", "STRESS-R", cases, 0, |_| stress_strategy(big), run_register);
+    PAR_LIMIT.store(usize::MAX, std::sync::atomic::Ordering::SeqCst);
+    v
+}
+
+pub fn run_stress_shared(ctx: &Ctx, acc: &Mutex<Acc>, dangling: bool, listing: bool) -> Option<Violation> {
+    let cases = ctx.tier.scale(1, 10);
+    let big = ctx.tier == Tier::Thorough;
+    PAR_LIMIT.store(3, std::sync::atomic::Ordering::SeqCst);
+    let v = campaign(ctx, acc, "stress-shared", if listing { "STRESS-L" } else { "STRESS-D" }, cases, 0, |_| stress_strategy(big), move |c| run_shared(c, dangling, listing));
+    PAR_LIMIT.store(usize::MAX, std::sync::atomic::Ordering::SeqCst);
+    v
+}
+
+pub fn replay_stress(engine: &str, case: serde_json::Value) -> R<CaseMeta> {
+    let case: StressCase = serde_json::from_value(case).expect("harness: bad stress case");
+    // a stress run is not deterministic: repeat it a few times
+    let mut last = Ok(CaseMeta::default());
+    for _ in 0..5 {
+        last = match engine {
+            "STRESS-R" => run_register(&case),
+            "STRESS-L" => run_shared(&case, false, true),
+            _ => run_shared(&case, true, false),
+        };
+        if last.is_err() {
+            return last;
+        }
+    }
+    last
 }
